@@ -48,10 +48,10 @@ Definition xmacro (s : xstate) (t : nat) : xstate :=
 Definition xrun (s : xstate) (sch : list nat) : xstate := fold_left xmacro sch s.
 
 Record xcase := {
-  h_f0 : bool; h_warm : bool; h_progs : list (list xcmd); h_sched : list nat;
-  h_flag : bool; h_cache : Z; h_shared : bool; h_lockshared : bool;
-  h_rets : list (list Z); h_ncomp : nat;
-  h_after : list Z; h_fresh : list Z
+  xc_f0 : bool; xc_warm : bool; xc_progs : list (list xcmd); xc_sched : list nat;
+  xc_flag : bool; xc_cache : Z; xc_shared : bool; xc_lockshared : bool;
+  xc_rets : list (list Z); xc_ncomp : nat;
+  xc_after : list Z; xc_fresh : list Z
 }.
 
 Fixpoint codes_eqb (obs : list Z) (mdl : list bool) : bool :=
@@ -75,15 +75,15 @@ Fixpoint xthreads_ok (s : xstate) (t : nat) (progs : list (list xcmd)) (rets : l
 Definition is_new (o : xobj) : bool := match o with XNew => true | XOld => false end.
 
 Definition xcheck (c : xcase) : nat :=
-  let prog := fun t => nth t (h_progs c) [] in
-  let s := xrun (xinit (h_f0 c) (h_warm c) prog) (h_sched c) in
+  let prog := fun t => nth t (xc_progs c) [] in
+  let s := xrun (xinit (xc_f0 c) (xc_warm c) prog) (xc_sched c) in
   let ok_model :=
-      xthreads_ok s 0 (h_progs c) (h_rets c)
-      && Bool.eqb (x_flag s) (h_flag c)
-      && Z.eqb (code_of (x_cache s (x_curc s))) (h_cache c)
-      && Bool.eqb (is_new (x_curc s)) (h_shared c)
-      && Bool.eqb (is_new (x_curl s)) (h_lockshared c)
-      && Nat.eqb (x_ncomp s) (h_ncomp c) in
-  ((if ok_model then 0 else 1) + (if zl_eqb (h_after c) (h_fresh c) then 0 else 2))%nat.
+      xthreads_ok s 0 (xc_progs c) (xc_rets c)
+      && Bool.eqb (x_flag s) (xc_flag c)
+      && Z.eqb (code_of (x_cache s (x_curc s))) (xc_cache c)
+      && Bool.eqb (is_new (x_curc s)) (xc_shared c)
+      && Bool.eqb (is_new (x_curl s)) (xc_lockshared c)
+      && Nat.eqb (x_ncomp s) (xc_ncomp c) in
+  ((if ok_model then 0 else 1) + (if zl_eqb (xc_after c) (xc_fresh c) then 0 else 2))%nat.
 
 Definition xreport (cases : list xcase) : list (nat * nat) := index_from 0 (map xcheck cases).
